@@ -184,7 +184,13 @@ pub fn for_each_case<F: Fn(&Case) + Sync>(rep: &Report, thorough: bool, f: F) {
         let cfg = &cfgs[ci];
         let mut rng = Rng::new(seed.wrapping_mul(1000).wrapping_add((ci * 7 + r) as u64));
         let rm = RefModel::new(rng.bases(ref_len_for(cfg)), cfg);
-        let r2 = rng.bases(90 + 10 * r);
+        // the second reference contig carries an N-run and an IUPAC code (largest code 6 = Y), so reference
+        // segments are not pure ACGT and a sample can share an N-run with its group reference
+        let mut r2 = rng.bases(90 + 10 * r);
+        for j in 40..46 { r2[j] = 4; }
+        r2[20] = 6;
+        let mut r2_snp = r2.clone();
+        r2_snp[36] = (r2_snp[36] + 1) & 3; // SNP 4 bases upstream of the shared N-run
         let extra = rng.bases(cfg.k.saturating_sub(3).max(4)); // shorter than k -> orphan / raw group
         let menu = rm.menu(ci + r);
         // all single edits; all ordered pairs for the first configs (quick) / all configs (thorough)
@@ -204,7 +210,7 @@ pub fn for_each_case<F: Fn(&Case) + Sync>(rep: &Report, thorough: bool, f: F) {
             let nsamp = 2 + (ei % 2);
             let mut samples: Vec<Sample> = vec![("ref#0".to_string(), vec![("chrA".to_string(), rm.contig.clone()), ("chrB desc field".to_string(), r2.clone())])];
             // sample 1: edited A, identical B (-> empty delta), plus a contig shorter than k
-            samples.push(("s1#0".to_string(), vec![("chrA".to_string(), v.clone()), ("chrB desc field".to_string(), r2.clone()), ("tiny".to_string(), extra.clone())]));
+            samples.push(("s1#0".to_string(), vec![("chrA".to_string(), v.clone()), ("chrB desc field".to_string(), if ei % 2 == 0 { r2.clone() } else { r2_snp.clone() }), ("tiny".to_string(), extra.clone())]));
             if nsamp == 3 {
                 // sample 2: reordered, duplicate of s1's contig (delta-id reuse), B absent, extra contig, first edit alone
                 let v1 = rm.apply(&es[..1]);
